@@ -97,6 +97,17 @@ pub fn write_rtobject(o: Rc<dyn RTObject>) -> Result<serde_json::Value, StoryErr
     }
 
     if let Some(v) = Value::get_value::<f32>(o.as_ref()) {
+        // JSON has no infinities or NaN: serde_json would write `null`, which
+        // cannot be loaded again. Substitute like the reference runtime does.
+        let v = if v.is_nan() {
+            0.0
+        } else if v == f32::INFINITY {
+            3.4e38
+        } else if v == f32::NEG_INFINITY {
+            -3.4e38
+        } else {
+            v
+        };
         return Ok(json!(v));
     }
 
